@@ -5,15 +5,16 @@ from chancommon import KIND, CASE_WALL, run_impl, shrink_candidates, classify_co
 import regen
 
 SPECS = ["C04"]
-THEOREMS = ["C04.expectLoop_spec", "C04.expect_spec", "Pat.search_bound", "C04.case_spec", "ChanCase.keeps"]
-LEAN_MODULES = ["TbotVerif.Props.ChanCase"]
+THEOREMS = ["C04.expectLoop_spec", "C04.expect_spec", "Pat.search_bound", "C04.case_spec", "ChanCase.keeps", "Re.M_la_iff", "Re.maxWidth_la"]
+LEAN_MODULES = ["TbotVerif.Props.ChanCase", "TbotVerif.Props.ReProps"]
 QUICK_N, THOROUGH_N = 5000, 80000
 QUICK_BUDGET, THOROUGH_BUDGET = 40, 900
 RULE = ("random (pattern list of 1-4 literals/regexes incl. prefixes of one another and samples cut out of the stream, "
         "stream, composition, chunk size, timeout) tuples, 1-3 expect calls per case; non-trivial = an expect call needed "
         ">= 2 transport pieces, or matched a pattern with index > 0, or timed out after receiving data; distinct = distinct lines")
 TRUSTED = ["CPython `re.search` / `bytes.find` agree with `Pat.search` on the generated subset (tested by the same cases)"]
-ASSUMPTIONS = ["regex patterns come from the modelled subset (classes, sequence, alternation, bounded greedy repetition)"]
+ASSUMPTIONS = ["regex patterns come from the modelled subset (classes, sequence, alternation, bounded greedy repetition, "
+               "positive look-ahead at the end of a pattern)"]
 
 
 def gen_case(rng, params):
@@ -34,12 +35,46 @@ def gen_case(rng, params):
         cut_at = rng.randint(0, len(data))
         data = data[:cut_at] + bytes(extra) + data[cut_at:]
         first_icase = rng.random() < 0.5
+    ahead = None
+    if flagged is None and rng.random() < 0.2:
+        # a pattern with a look-ahead: `head(?=tail)`.  Its width is that of `head`, the decision reaches len(tail)
+        # bytes further; the stream holds real occurrences and decoys (head + a proper prefix of tail + something else)
+        head = regen.lit(rng.choice([b"st: ", b"x", b"ab", b"> "])) if rng.random() < 0.6 else regen.gen(rng, b"abx >", depth=1)
+        if head.nullable():
+            head = regen.Seq(regen.Cls([(97, 98)]), head)
+        tail = rng.choice([b"READY", b"ok", b"abx", b"\r\n$ ", b"xxab "])
+        tail_re = regen.lit(tail) if rng.random() < 0.8 else regen.Alt(regen.lit(tail), regen.lit(tail[:1] + b"Z"))
+        ahead = (regen.Seq(head, regen.La(tail_re)), [])
+        extra = bytearray()
+        for _ in range(rng.randint(1, 3)):
+            h = regen.sample(head, rng)
+            if rng.random() < 0.6:
+                extra += g.rbytes(rng, rng.randint(0, 3)) + h
+                ahead[1].append(len(extra))
+                extra += tail
+            else:
+                extra += h + tail[: rng.randint(0, len(tail) - 1)] + rng.choice([b"#", b"", b" "])
+        cut_at = rng.randint(0, len(data))
+        data = data[:cut_at] + bytes(extra) + data[cut_at:]
+        ahead = (ahead[0], [(cut_at + o, len(tail)) for o in ahead[1]])
     paged = chunk == params["readChunkSize"] and rng.random() < 0.08
     if paged:
         # the piece that completes a match is filled to the last byte, and more data is waiting behind it
         data, pieces = g.page_cut(rng, data, chunk, [rng.randint(1, len(data))] if data else [])
     else:
         pieces = g.cut(rng, data)
+    if ahead is not None and not paged and ahead[1]:
+        # piece boundaries strictly inside the looked-ahead text (and right in front of it)
+        cuts, pos = set(), 0
+        for pc in pieces[:-1]:
+            pos += len(pc); cuts.add(pos)
+        for o, n in ahead[1]:
+            if rng.random() < 0.85:
+                cuts.add(o + rng.randint(1, max(1, n - 1)))
+            if rng.random() < 0.3:
+                cuts.add(o)
+        cs = sorted(c for c in cuts if 0 < c < len(data))
+        pieces = [data[a:b] for a, b in zip([0] + cs, cs + [len(data)])]
     ticks = g.schedule(rng, pieces, "zero" if paged and rng.random() < 0.7 else None)
     ops = []
     for n_op in range(rng.randint(2, 3) if flagged is not None else rng.randint(1, 3)):
@@ -55,6 +90,8 @@ def gen_case(rng, params):
                 pats.append(pats[-1][:-2])            # proper prefix of the previous literal
             else:
                 pats.append(g.gen_pat(rng).wire())
+        if ahead is not None:
+            pats.insert(rng.randint(0, len(pats)), regen.Pat("re", ahead[0]).wire())
         if flagged is not None:
             rng.shuffle(pats)
         ops.append(f"ex:{opt(g.timeout_choice(rng))}:{lst(pats)}")
@@ -64,6 +101,7 @@ def gen_case(rng, params):
 def classify(line, obs):
     ks = classify_common(line, obs)
     ks.append("icase=%d" % any(":I" in o or ",I" in o for o in line.split()[4:]))
+    ks.append("lookahead=%d" % any(o.startswith("ex:") and "P" in o.split(":", 2)[2] for o in line.split()[4:]))
     for o in obs.split()[1:]:
         r = o.split(";")[0]
         if r.startswith("x:"):
